@@ -147,8 +147,12 @@ func replayScript(fx *fixtures, sc Script, w *vcommon.Writer, stepTO, hangTO tim
 		} else {
 			break
 		}
+		r.extra = nil
 		rec, fine := r.do(i+1, s)
 		_ = w.Write(rec)
+		for _, x := range r.extra {
+			_ = w.Write(x)
+		}
 		n++
 		if !fine {
 			ok = false
